@@ -68,6 +68,17 @@ CHECKS["C10"] = dict(level="fault_enumeration", engine="sweep",
    note="Truncation points of (b) are complete per frame; the frame set is a spread over the archetypes, not all frames.",
    design="3/C10")
 
+CHECKS["C02"] = dict(level="exploration", engine="sweep",
+   technique="complete small-scope enumeration of inputs + threshold-directed sweeps + exhaustive short histories of the block-decision automaton, reuse and read fragmentation; oracles: this crate's decoder and libzstd",
+   text="(a) every string over {a,b} up to length 14/17, {a,b,c} up to 9/11, {a,b,c,d} up to 6/8 at both levels (135k / 1.2M round trips); (b) families that sweep each encoder threshold: lengths 0..10 and 128 KiB*k-2..+2 for k<=3 x 4 content kinds, repeat-free skewed literal counts across 1024 (Huffman on/off) and 16384 (size format) with the literal counts actually observed recorded, distinct-symbol counts at 1,2,3,4,15..19,127..129,254..256, match lengths and literal runs at every code boundary, period structures giving 12k sequences per block; (c) the block encoder's only cross-block state is last_huff_table, so its decision automaton is explored with one 128 KiB generator per decision (RLE, raw fallback, Huffman, raw literals, treeless) plus a marginal band of near-uniform 254/255-symbol blocks (generators for which the literals hook reports Huffman accepted while the block is stored raw are listed in the evidence): all sequences of two blocks (+ three over a reduced alphabet in thorough) + a short last block, with the observed previous->next decision matrix recorded; (d) every history of <= 2/3 frames over 8 inputs through one reused FrameCompressor; (e) every composition of the length as read sizes for short inputs and read sizes {1,7,4096,128Ki-1,128Ki,128Ki+1} for multi-block inputs must give byte-identical output.",
+   note="libzstd 1.5.7 is the reference decoder. Byte equality of a reused compressor's output with a fresh one's is only counted (recycled match-finder buffers may find other matches); the property asks for correct frames.",
+   design="3/C02")
+CHECKS["C15"] = dict(level="exploration", engine="sweep",
+   technique="C02's executions judged by zmodel's strict walker and the size formula",
+   text="Every frame produced in C02's families (a)-(d) is parsed by the strict walker: magic, header fields consistent, every block <= 128 KiB stored and regenerated, exactly one last block, every offset within the declared window and within the data produced so far, section sizes consistent, every Huffman / sequence bit stream consumed exactly, treeless / repeat only after a definition, nothing after the last block but a correct 4-byte checksum; and len(frame) <= len(input) + 6 + 3*max(1, ceil(len/128 KiB)) + 3 + 4, especially for incompressible inputs at every length 128 KiB*k + d.",
+   note="The walker is bound to libzstd on every run of C01/C09 (it must accept every libzstd frame with libzstd's plaintext).",
+   design="3/C15")
+
 NOT_YET = {}
 
 def main():
